@@ -47,6 +47,12 @@ def generate(rng, tier):
                 cases.append({"k": "crop", "regime": regime, "dur": d, "step": s, "start": st, "n": n,
                               "focus": ["tl", tl], "mode": rng.choice(list(MODES)), "fixed": None, "ndim": 2})
             cases.append({"k": "iter", "regime": regime, "dur": d, "step": s, "start": st, "n": n})
+    # frames no longer than the time precision (regime K4: frames of up to eps = 4 ticks, i.e. at most a microsecond):
+    # such frame segments are "empty", iteration still pairs every row with its position
+    for regime, durs in (("K4", (1, 2, 3, 4, 5)),):
+        for d in durs:
+            for n in (1, 2, 5, 9):
+                cases.append({"k": "iter", "regime": regime, "dur": d, "step": rng.choice([1, 2, d]), "start": rng.choice([0, 3, -2]), "n": n})
     # decimal window parameters (the library default is 25 ms / 10 ms), every feature length up to 60 and some longer
     for step, dur in ((0.01, 0.025), (0.1, 0.1), (0.3, 0.5), (0.016, 0.02), (1 / 3, 1.0), (0.02, 0.02)):
         for n in (list(range(1, 61)) + [97, 128, 333] if tier == "thorough" else rng.sample(range(1, 61), 14) + [57, 97]):
